@@ -123,6 +123,23 @@ func (c *c14call) run(o *c14objs, baseStr string) (res string) {
 		return c14result(o.parser.ParseRef(baseStr, c.a))
 	case "base.Parse":
 		return c14result(o.base.Parse(c.a))
+	case "base.ParseMutate":
+		// the result of a resolution is owned by this goroutine and may be mutated freely; the
+		// shared base must not notice (no state shared between base and result)
+		r, err := o.base.Parse(c.a)
+		if err != nil || r == nil {
+			return "ERR:" + string(errors.Type(err))
+		}
+		r.SetHash("")
+		r.SetSearch("")
+		r.SearchParams().Append("z", "1")
+		r.SetPathname("/zz")
+		r.SetHash("x")
+		cl := o.base.Clone()
+		cl.SetHash("")
+		cl.SetSearch("")
+		cl.SetHost("zz.example")
+		return r.Href(false) + "|" + cl.Href(false)
 	case "base.getters":
 		s := obs.Take(o.base)
 		return s.Href + "|" + s.Host + "|" + s.Pathname + "|" + s.Search + "|" + s.Hash + fmt.Sprint(s.DecodedPort, s.IPv4, s.IPv6, s.Opaque, s.Special)
@@ -141,13 +158,13 @@ func (c *c14call) run(o *c14objs, baseStr string) (res string) {
 	return "?"
 }
 
-var c14kinds = []string{"url.Parse", "url.ParseRef", "parser.Parse", "parser.ParseRef", "base.Parse", "base.Parse", "base.Parse", "base.getters", "base.String",
+var c14kinds = []string{"url.Parse", "url.ParseRef", "parser.Parse", "parser.ParseRef", "base.Parse", "base.Parse", "base.ParseMutate", "base.ParseMutate", "base.getters", "base.String",
 	"base.ValidationErrors", "base.Clone", "base.Clone", "profile.Parse", "profile.ParseRef"}
 
 // sharedObject names the shared object an operation touches (overlap evidence).
 func sharedObject(kind string) string {
 	switch kind {
-	case "base.Parse", "base.getters", "base.String", "base.ValidationErrors", "base.Clone":
+	case "base.Parse", "base.ParseMutate", "base.getters", "base.String", "base.ValidationErrors", "base.Clone":
 		return "base"
 	case "parser.Parse", "parser.ParseRef":
 		return "parser"
@@ -255,7 +272,7 @@ func (m c14) Exec(ctx *core.Ctx, cs *core.Case) {
 	// fresh shared objects and an independent twin
 	baseStr := gen.ParseableBase(r)
 	if r.IntN(4) == 0 {
-		baseStr = gen.Pick(r, []string{"http://h/a/b?x=1&y=2#f", "http://1.2.3.4:81/p?q", "file:///C:/a/b?q", "a://h/p?a=b", "http://[::1]/?a=1%2B1"})
+		baseStr = gen.Pick(r, []string{"http://h/a/b?x=1&y=2#f", "http://1.2.3.4:81/p?q", "file:///C:/a/b?q", "a://h/p?a=b", "http://[::1]/?a=1%2B1", "sc:opaque path  #frag", "a:p  ", "data:text/plain,x  ?q", "http://h/?", "file:///a/b"})
 	}
 	cfg := randomConfig(r)
 	for len(cfg) == 1 && len(cfg[0]) > 8 && cfg[0][:8] == "profile:" {
@@ -289,6 +306,9 @@ func (m c14) Exec(ctx *core.Ctx, cs *core.Case) {
 				c.a = gen.Input(r)
 			} else {
 				c.a = gen.Reference(r)
+			}
+			if c.kind == "base.ParseMutate" && r.IntN(2) == 0 {
+				c.a = gen.Pick(r, []string{"#f", "", "?q", "#", "x", "../y", "//h2/p"})
 			}
 			plans[g][i] = c
 		}
